@@ -243,4 +243,143 @@ funclit 2 in (dht *FullRT) findProvidersAsyncRoutine(ctx context.Context, key mu
   ghost at before call(GetProviders): assert($arg1 == p && $arg2 == key)
   ghost at call(psSize)#0: $sz = $ret0
   ghost at before call(cancelquery): assert(!findAll && $sz >= count)
+
+# ---- value path of the accelerated client (C04, C05, C06) -----------------------
+# Same rules as the standard client (the code is its near copy): a value becomes
+# "best" only when it is the first or Select prefers it over the current best;
+# the callback is told the truth about "better"; its stop request is honoured.
+role newVal(ctx context.Context, v RecvdVal, better bool) bool in (dht *FullRT) processValues(ctx context.Context, key string, vals <-chan RecvdVal, newVal func(ctx context.Context, v RecvdVal, better bool) bool) (best []byte, peersWithBest map[peer.ID]struct{}, aborted bool)
+  pure
+
+func (dht *FullRT) processValues(ctx context.Context, key string, vals <-chan RecvdVal, newVal func(ctx context.Context, v RecvdVal, better bool) bool) (best []byte, peersWithBest map[peer.ID]struct{}, aborted bool)
+  props C04 C06 C03
+  ghostvar $sel bool = false
+  ghostvar $wasNil bool = false
+  ghostvar $stop bool = false
+  modifies nothing
+  loop 0 invariant imp(best != nil, peersWithBest != nil) && (peersWithBest == nil || fresh(peersWithBest))
+  loop 0 invariant [internal-callback-stop-is-honoured] $stop == aborted
+  ensures [internal-callback-stop-is-reported] imp($stop, aborted)
+  ghost at call(Select): $sel = ($ret1 == nil && $ret0 == 1 && len($arg1) == 2 && $arg1[0] == best && $arg1[1] == v.Val && $arg0 == key)
+  ghost at assign(peersWithBest): $wasNil = (best == nil)
+  ghost at before call(newVal): assert(!$stop)
+  ghost at call(newVal): $stop = $ret0
+  ghost at before call(newVal)#0: assert(!$arg2 && $arg1 == v && has(peersWithBest, v.From))
+  ghost at before call(newVal)#1: assert(!$arg2 && $arg1 == v)
+  ghost at before call(newVal)#2: assert($arg2 && $arg1 == v && best == v.Val); assert($wasNil || $sel); assert(len(peersWithBest) == 1 && has(peersWithBest, v.From))
+
+func (dht *FullRT) searchValueQuorum(ctx context.Context, key string, valCh <-chan RecvdVal, stopCh chan struct{}, out chan<- []byte, nvals int) ([]byte, map[peer.ID]struct{}, bool)
+  props C04
+  modifies nothing
+  ghost at before call(processValues): assert($arg1 == key && $arg2 == valCh)
+
+funclit 0 in (dht *FullRT) searchValueQuorum(ctx context.Context, key string, valCh <-chan RecvdVal, stopCh chan struct{}, out chan<- []byte, nvals int) ([]byte, map[peer.ID]struct{}, bool)
+  props C04
+  ensures [emit-before-stop] imp(better, tagged("sent:out") || tagged("recv:ctx.Done()"))
+  ensures [stop-only-past-quorum] imp(result && tagged("closed:stopCh"), nvals > 0 && numResponses > nvals)
+  ghost at send(out): assert($msg == v.Val)
+
+# the merge goroutine of SearchValue: closes the result channel on every path and
+# sends the correction to exactly the returned peers that lack the best value
+funclit 1 in (dht *FullRT) SearchValue(ctx context.Context, key string, opts ...routing.Option) (ch <-chan []byte, err error)
+  props C04 C06 C03
+  requires dht.bucketSize > 0
+  ghostvar $pos map[int]int = any
+  ghostvar $lr *lookupWithFollowupResult = nil
+  ensures [result-channel-closed] tagged("closed:out")
+  loop 0 invariant len(updatePeers) <= $key && $lr == l && l != nil
+  loop 0 invariant [every-returned-peer-without-best-is-corrected] all(j, 0, $key, imp(!has(peersWithBest, l.peers[j]), 0 <= $pos[j] && $pos[j] < len(updatePeers) && updatePeers[$pos[j]] == l.peers[j]))
+  ghost at recv(lookupRes): $lr = $msg
+  ghost at append(updatePeers): assert(!has(peersWithBest, p) && p == l.peers[$key]); $pos[$key] = len(updatePeers) - 1
+  ghost at before call(searchValueQuorum): assert($arg1 == key && $arg2 == valCh && $arg3 == stopCh && $arg4 == out && $arg5 == responsesNeeded)
+  ghost at before call(updatePeerValues): assert($arg1 == key && $arg2 == best && $arg3 == updatePeers && best != nil && !aborted); assert($lr != nil && all(j, 0, len($lr.peers), imp(!has(peersWithBest, $lr.peers[j]), 0 <= $pos[j] && $pos[j] < len(updatePeers) && updatePeers[$pos[j]] == $lr.peers[j])))
+
+func (dht *FullRT) GetValue(ctx context.Context, key string, opts ...routing.Option) (result []byte, err error)
+  props C04
+  modifies *
+  ensures [found-or-error] imp(err == nil, result != nil)
+  ghost at before call(SearchValue): assert($arg1 == key)
+
+# PutValue: validated, never replaces a better local value, stored locally
+# first, and the very same record goes to every closest peer
+func (dht *FullRT) PutValue(ctx context.Context, key string, value []byte, opts ...routing.Option) (err error)
+  props C05 C06
+  requires dht.bucketSize > 0 && dht.ipDiversityFilterLimit >= 0
+  ghostvar $valid bool = false
+  ghostvar $old *recpb.Record = nil
+  ghostvar $sel0 bool = false
+  ghostvar $eq bool = false
+  ghostvar $putDone bool = false
+  ghostvar $peers []peer.ID = nil
+  modifies *
+  ghost at call(Validate): $valid = ($ret0 == nil && $arg0 == key && $arg1 == value)
+  ghost at call(getLocal): $old = $ret0
+  ghost at call(Equal): $eq = $ret0
+  ghost at call(Select): $sel0 = ($ret1 == nil && $ret0 == 0 && $arg0 == key && len($arg1) == 2 && $arg1[0] == value)
+  ghost at before call(putLocal): assert($valid && $arg1 == key && $arg2 == rec); assert($old == nil || $eq || $sel0)
+  ghost at call(putLocal): $putDone = ($ret0 == nil)
+  ghost at before call(GetClosestPeers): assert($putDone && $arg1 == key)
+  ghost at call(GetClosestPeers): $peers = $ret0
+  ghost at before call(execOnMany): assert($arg2 == $peers)
+
+funclit 1 in (dht *FullRT) PutValue(ctx context.Context, key string, value []byte, opts ...routing.Option) (err error)
+  props C06
+  ghost at before call(PutValue): assert($arg1 == p && $arg2 == rec && $arg0 == ctx)
+
+func (dht *FullRT) updatePeerValues(ctx context.Context, key string, val []byte, peers []peer.ID)
+  props C06
+  modifies *
+  ghost at before call(MakePutRecord): assert($arg0 == key && $arg1 == val)
+  ghost at go(func): assert($arg0 == p && fixupRec != nil && str(fixupRec.Key) == key && fixupRec.Value == val)
+
+funclit 0 in (dht *FullRT) updatePeerValues(ctx context.Context, key string, val []byte, peers []peer.ID)
+  props C06
+  requires fixupRec != nil && str(fixupRec.Key) == key
+  ghost at before call(putLocal): assert($arg1 == key && $arg2 == fixupRec)
+  ghost at before call(PutValue): assert($arg1 == p && $arg2 == fixupRec)
+
+# ---- Provide and the fan-out helper of the accelerated client (C06) -----------
+# execOnMany starts exactly one call of fn per listed peer, each with that peer,
+# counts only calls that returned nil, and never reports more successes than
+# answers received; the answer channel holds every answer (no worker blocks).
+role fn(ctx context.Context, p peer.ID) error in (dht *FullRT) execOnMany(ctx context.Context, fn func(context.Context, peer.ID) error, peers []peer.ID, sloppyExit bool) int
+  modifies *
+
+func (dht *FullRT) execOnMany(ctx context.Context, fn func(context.Context, peer.ID) error, peers []peer.ID, sloppyExit bool) int
+  props C06 C03
+  ghostvar $spawned int = 0
+  modifies *
+  ensures [bounded-by-answers] 0 <= result && result <= len(peers)
+  ensures [one-call-per-peer] imp(len(peers) > 0, $spawned == len(peers))
+  loop 0 invariant $spawned == $key
+  loop 1 invariant 0 <= numSuccess && numSuccess <= numDone && numDone <= len(peers) && $spawned == len(peers)
+  ghost at go(func): assert($arg0 == p); $spawned = $spawned + 1
+
+funclit 0 in (dht *FullRT) execOnMany(ctx context.Context, fn func(context.Context, peer.ID) error, peers []peer.ID, sloppyExit bool) int
+  props C06
+  ghostvar $r error = nil
+  ghost at before call(fn): assert($arg0 == putctx && $arg1 == p)
+  ghost at call(fn): $r = $ret0
+  ghost at send(errCh): assert($msg == $r)
+
+func (dht *FullRT) Provide(ctx context.Context, key cid.Cid, brdcst bool) (err error)
+  props C06
+  requires dht.bucketSize > 0 && dht.ipDiversityFilterLimit >= 0
+  ghostvar $mh multihash.Multihash = nil
+  ghostvar $peers []peer.ID = nil
+  ghostvar $n int = -1
+  modifies *
+  ghost at call(Hash): $mh = $ret0
+  ghost at before call(AddProvider): assert($arg1 == $mh)
+  ghost at before call(GetClosestPeers): assert($arg1 == string($mh))
+  ghost at call(GetClosestPeers): $peers = $ret0
+  ghost at before call(execOnMany): assert($arg2 == $peers && $arg3)
+  ghost at call(execOnMany): $n = $ret0
+  ghostvar $ex bool = false
+  ghost at assign(exceededDeadline): $ex = true
+  ensures [no-success-is-an-error] imp(brdcst && $n == 0 && !$ex, err != nil)
+
+funclit 1 in (dht *FullRT) Provide(ctx context.Context, key cid.Cid, brdcst bool) (err error)
+  props C06
+  ghost at before call(PutProviderAddrs): assert($arg0 == ctx && $arg1 == p && $arg2 == keyMH && $arg3.ID == dht.self)
 @*/
